@@ -206,16 +206,8 @@ def r2_offset_discipline(ctx, sym):
     ctx.check(ok, 'R2', 'tifa:locate', core, loc, "TifaCore.locate does not return Location(node.lineno + line_offset)",
               "a TIFA issue inside section 2 is reported on the section-relative line")
     vis = ctx.repo.module(TIFA_VISITOR)
-    sets = []
-    for m in (core, vis):
-        for n in ast.walk(m.tree):
-            if isinstance(n, ast.Assign) and any(is_self_attr(t, 'line_offset') for t in n.targets):
-                sets.append((m, n))
-    ok = bool(sets) and all('line_offsets.get(' in norm(n.value) or norm(n.value) == '0' for m, n in sets) and \
-        any('submission.line_offsets.get(' in norm(n.value) for m, n in sets)
-    ctx.check(ok, 'R2', 'tifa:line_offset-source', sets[0][0] if sets else vis, sets[0][1] if sets else vis.tree,
-              "Tifa.line_offset is not read from report.submission.line_offsets for the analysed file",
-              "TIFA lines ignore the active section")
+    from .c18 import line_offset_rule
+    line_offset_rule(ctx, sym, 'R2')
     # every feedback issued by TIFA gets its location from locate()
     n_issue = 0
     for m in (core, vis):
